@@ -289,6 +289,11 @@ func (m *Monitors) onRound(n *Node, r Round) {
 func (m *Monitors) stepInvariants(n *Node, pre Pre) {
 	nm := m.per[n.Idx]
 	h, v := n.H(), n.V()
+	// heights the node had a term for during this step: the one it started in, every height it started a round for, the final one
+	termHeights := map[uint64]bool{pre.H: true, h: true}
+	for _, r := range n.Rounds[pre.RoundsLen:] {
+		termHeights[r.H] = true
+	}
 	if h < pre.H || (h == pre.H && v < pre.V) {
 		m.fail("C13", "height-view-went-back", "node %d: (h,v) went from (%d,%d) to (%d,%d)", n.Idx, pre.H, pre.V, h, v)
 	}
@@ -372,7 +377,7 @@ func (m *Monitors) stepInvariants(n *Node, pre Pre) {
 		if !m.w.InCommittee(n.Idx, uint64(e.H)) {
 			m.fail("C17", "non-member-node-acted:store", "node %d is not in the committee of height %d but its protocol logic handled a %s for it (Store call, stored=%v): a message of that height reached another height's term", n.Idx, e.H, e.Kind, e.Stored)
 		}
-		if uint64(e.H) < pre.H || uint64(e.H) > h {
+		if !termHeights[uint64(e.H)] {
 			m.fail("C17", "stored-for-other-height", "node %d at height %d..%d stored a %s for height %d", n.Idx, pre.H, h, e.Kind, e.H)
 		}
 		if e.Stored {
